@@ -40,6 +40,15 @@ def check_rejection_loop(ctx, res, config="all"):
                 continue
             if d[0] == "call":
                 roots = {("call", bb_)}
+                # a value computed *from* a candidate (`n - bound`, `n % bound`) is not the candidate: folding a rejected draw back
+                # into the range gives some values two candidates
+                if bb_ not in gis:
+                    arg_roots = set()
+                    for a_ in d[2]["args"]:
+                        arg_roots |= set(fl.roots_of_operand(a_))
+                    if any(r[0] == "call" and r[1] in gis for r in arg_roots):
+                        wrong_defs.append(bb_)
+                        continue
             elif d[0] == "assign" and d[3]["rv"]["k"] == "use":
                 roots = set(fl.roots_of_operand(d[3]["rv"]["op"]))
             else:
@@ -83,7 +92,7 @@ def check_rejection_loop(ctx, res, config="all"):
             if not any(b.edge_dominates(e, bb_) for e in strict_edges) and not errs:
                 errs.append("no strict `candidate < bound` test dominates the return of the candidate")
         if wrong_defs:
-            errs.append("a return value is made of the operands only, not of an accepted candidate")
+            errs.append("a return value is not an accepted candidate: it is made of the operands only, or computed from a candidate (a rejected draw folded back into the range)")
         if other_defs and not errs:
             res.note("R10-rejection-loop: gen_biguint_below also returns a value produced another way (line %s) - that path is not decided" % b.blocks[other_defs[0]]["term"]["span"]["line"])
         # the rejecting edge loops back to a fresh draw (gen call reachable from the false edge)
